@@ -342,8 +342,8 @@ def check(prop, tier, seed=0, only=None, jobs=None):
                 continue
             k = (bool(v.get('candidate')), v.get('key'))
             ncls = sum(1 for c in chosen if bool(c.get('candidate')) == k[0])
-            # candidates of the concretisation fallback (at most 20 per obligation, five models per unsupported path) are all replayed
-            if per_key.get(k, 0) < (20 if k[0] else 5) and ncls < 20:
+            # candidates of the concretisation fallback (at most 60 per obligation, five models per unsupported path) are all replayed
+            if per_key.get(k, 0) < (60 if k[0] else 5) and ncls < (60 if k[0] else 20):
                 per_key[k] = per_key.get(k, 0) + 1
                 chosen.append(v)
         rr = run_replays([dict(v['replay'], property=prop) for v in chosen])
